@@ -151,6 +151,9 @@ def call_tree(ctx, pid, ints=None, floor_note=True):
             where = "%s:%d" % (rel, f.node.lineno)
             if status != "same":
                 ref_fn = next((n for n in tree.body if isinstance(n, ast.FunctionDef) and n.name == rn), None)
+                for nm in shared_state.resets_moved_before_loop(f.node, ref_fn):
+                    ctx.bad("fn:%s:reset-moved:%s" % (q.split(".", 1)[-1], nm), where,
+                            "%s resets `%s` before the loop that assigns it; the reviewed function resets it after that loop and then accumulates into it: the accumulation now starts from what the last iteration left there" % (q, nm))
                 for nm, node in shared_state.hoisted_initialisations(f.node, ref_fn):
                     ctx.bad("fn:%s:hoisted-init:%s" % (q.split(".", 1)[-1], nm), "%s:%d" % (rel, node.lineno),
                             "%s creates `%s` once, before its loops, and fills it inside them; the reviewed function creates a new one in every iteration: the elements of one iteration are still there in the next" % (q, nm))
